@@ -195,18 +195,19 @@ func debugSetUpvalue(L *LState) int {
 }
 
 func debugTraceback(L *LState) int {
+	// traceback ([thread,] [message] [, level]); another thread is shown from its level 0
+	ls, arg := getThread(L)
 	msg := ""
-	level := L.OptInt(2, 1)
-	ls := L
-	if L.GetTop() > 0 {
-		if s, ok := L.Get(1).(LString); ok {
-			msg = string(s)
-		}
-		if l, ok := L.Get(1).(*LState); ok {
-			ls = l
-			msg = ""
-		}
+	if s, ok := L.Get(arg + 1).(LString); ok {
+		msg = string(s)
+	} else if n, ok := L.Get(arg + 1).(LNumber); ok {
+		msg = n.String()
 	}
+	deflevel := 1
+	if ls != L {
+		deflevel = 0
+	}
+	level := L.OptInt(arg+2, deflevel)
 
 	traceback := strings.TrimSpace(ls.stackTrace(level))
 	if len(msg) > 0 {
